@@ -579,6 +579,42 @@ fn abs_key(pre: &str, sig: &str, hl: bool, hr: bool) -> String {
     format!("{pre}/{sig}/{hl}/{hr}")
 }
 
+// ---------------------------------------------------------------------------------- stall watchdog
+// The connection under test uses synchronous mutexes; a deadlock inside it blocks runtime worker threads, and then
+// no async deadline can fire. A plain OS thread watches a progress counter and the set of calls in flight.
+static PROGRESS: std::sync::atomic::AtomicU64 = std::sync::atomic::AtomicU64::new(0);
+static INFLIGHT: std::sync::LazyLock<std::sync::Mutex<HashMap<u64, Value>>> =
+    std::sync::LazyLock::new(|| std::sync::Mutex::new(HashMap::new()));
+static NEXT_RUN: std::sync::atomic::AtomicU64 = std::sync::atomic::AtomicU64::new(1);
+const STALL_SECS: u64 = 150;
+
+fn spawn_watchdog() {
+    std::thread::spawn(|| {
+        let mut last = 0;
+        let mut idle = 0;
+        loop {
+            std::thread::sleep(std::time::Duration::from_secs(5));
+            let now = PROGRESS.load(std::sync::atomic::Ordering::Relaxed);
+            if now != last {
+                last = now;
+                idle = 0;
+                continue;
+            }
+            idle += 5;
+            if idle >= STALL_SECS {
+                let inflight: Vec<Value> = INFLIGHT.lock().map(|m| m.values().cloned().collect()).unwrap_or_default();
+                if inflight.is_empty() {
+                    idle = 0;
+                    continue;
+                }
+                // nothing completed for STALL_SECS while calls were in flight: the process is wedged
+                eprintln!("{}", json!({"type": "stall", "secs": STALL_SECS, "inflight": inflight}));
+                std::process::exit(4);
+            }
+        }
+    });
+}
+
 struct Table {
     // (abs state, call, res) -> edge record
     edges: HashMap<(String, String, String), Value>,
@@ -604,6 +640,7 @@ async fn run_program(mode: String, prog: Value, table: Arc<Table>, tm: Arc<Tmpl>
     let pre = prog["pre"].as_str().unwrap().to_string();
     let calls = prog["calls"].as_array().unwrap().clone();
     let mode_media = mode.clone();
+    let run_id = NEXT_RUN.fetch_add(1, std::sync::atomic::Ordering::Relaxed);
     let (mode, media, env) = {
         let mut it = mode_media.split('+');
         (
@@ -673,8 +710,15 @@ async fn run_program(mode: String, prog: Value, table: Arc<Table>, tm: Arc<Tmpl>
     for (i, call) in calls.iter().enumerate() {
         let id = 11 + i as u64;
         let before = project(&run.pc);
+        if let Ok(mut m) = INFLIGHT.lock() {
+            m.insert(run_id, json!({"mode": mode_media, "pre": pre, "step": i, "calls": calls}));
+        }
         let outcome = exec(&mut run, &tm, call, id).await;
         let after = project(&run.pc);
+        if let Ok(mut m) = INFLIGHT.lock() {
+            m.remove(&run_id);
+        }
+        PROGRESS.fetch_add(1, std::sync::atomic::Ordering::Relaxed);
         counts[0] += 1;
         let (res, err) = match &outcome {
             Outcome::Ok => {
@@ -772,6 +816,7 @@ async fn run_program(mode: String, prog: Value, table: Arc<Table>, tm: Arc<Tmpl>
 
 fn main() {
     quiet_panics();
+    spawn_watchdog();
     let args: Vec<String> = std::env::args().collect();
     if args.len() < 4 {
         eprintln!("usage: jsep <table.ndjson> <programs.ndjson> <out.ndjson> [jobs]");
